@@ -220,15 +220,38 @@ func importReferences(opts *FlattenOpts) error {
 		err      error
 	)
 
+	var previous string
 	for !imported && err == nil {
 		// iteratively import remote references until none left.
 		// This inlining deals with name conflicts by introducing auto-generated names ("OAIGen")
 		imported, err = importExternalReferences(opts)
 
 		opts.Spec.reload() // re-analyze
+
+		if !imported && err == nil {
+			// a round that leaves exactly the same remote references in place cannot be followed by a better one
+			remaining := remoteSchemaRefs(opts)
+			if remaining != "" && remaining == previous {
+				return ErrAtKey(remaining, ErrNoProgress)
+			}
+			previous = remaining
+		}
 	}
 
 	return err
+}
+
+// remoteSchemaRefs renders the remote schema $ref still present in the spec, with the keys holding them.
+func remoteSchemaRefs(opts *FlattenOpts) string {
+	remaining := make([]string, 0, len(opts.Spec.references.schemas))
+	for key, ref := range opts.Spec.references.schemas {
+		if !ref.HasFragmentOnly {
+			remaining = append(remaining, key+"="+ref.String())
+		}
+	}
+	sort.Strings(remaining)
+
+	return strings.Join(remaining, ", ")
 }
 
 // nameInlinedSchemas replaces every complex inline construct by a named definition.
